@@ -10,6 +10,8 @@ CONSTANTS
   Sequential = TRUE
   Planned = FALSE
   MaxPlan = 36
+  InitStores <- StoresEmpty
+  LogSched = FALSE
   KeepLog = FALSE
   OpMenu <- XCluster
   EditMenu <- EditsX
